@@ -148,6 +148,9 @@ func oracle(h *Hist, out Outcome, refs *refCache) (fails []oracleFail) {
 		synced := !failed && (op.Mode == "announce" && nOk > 0 || op.Mode == "explicit" && o.Cid != o.Latest0)
 		switch {
 		case synced:
+			if full := wantedSegment(op.Head, o.Latest0); !subset(full, o.Store) {
+				add("success-with-missing-blocks", "%s reports success (latest-sync %d -> %d) but of the segment %v only %v is stored", where, o.Latest0, o.Latest, full, o.Store)
+			}
 			if !reflect.DeepEqual(append([]int{}, o.Hooks...), append([]int{}, want...)) {
 				add("hook-log-not-the-segment", "%s succeeded (latest-sync before: %d): the hook was called for %v, the segment is %v", where, o.Latest0, o.Hooks, want)
 			}
